@@ -47,6 +47,8 @@ func unusualSpecs(rng *rand.Rand, n int) []struct {
 	stdPos := map[string]int{"A": 65, "B": 66, "C": 67, "space": 32}
 	for i := 0; i < n; i++ {
 		f := &indep.FontSpec{FontName: "Unusual" + strconv.Itoa(i), Toks: map[string][]indep.Tok{}, Subrs: std, Encoding: map[int]string{}}
+		// font matrices: the usual one, turned by a quarter (zero diagonal), 2048 units per em, slanted
+		f.Matrix = []string{"", "0 0.001 -0.001 0 0 0", "0.00048828125 0 0 0.00048828125 0 0", "0.001 0 0.000176 0.001 0 0", ""}[i%5]
 		desc := []string{}
 		withNotdef := rng.Intn(3) != 0
 		if withNotdef {
@@ -121,7 +123,16 @@ func unusualSpecs(rng *rand.Rand, n int) []struct {
 					desc = append(desc, fmt.Sprintf("fractional-path-%d", nseg))
 				}
 				for s := 0; s < nseg; s++ {
-					switch rng.Intn(6) {
+					switch rng.Intn(8) {
+					case 6:
+						// leaves vertically and ends level with its first control point (y3 = y1 != y2):
+						// one coincidence short of the vhcurveto form
+						dy2 := int64(rng.Intn(90) + 10)
+						t = append(t, num(0), num(int64(rng.Intn(100)+1)), num(int64(rng.Intn(80)+5)), num(dy2), num(int64(rng.Intn(80)+5)), num(-dy2), cmd("rrcurveto"))
+					case 7:
+						// leaves horizontally and ends exactly above its first control point (x3 = x1 != x2)
+						dx2 := int64(rng.Intn(90) + 10)
+						t = append(t, num(int64(rng.Intn(100)+1)), num(0), num(dx2), num(int64(rng.Intn(80)+5)), num(-dx2), num(int64(rng.Intn(80)+5)), cmd("rrcurveto"))
 					case 0:
 						t = append(t, append(args(2), cmd("rlineto"))...)
 					case 1:
